@@ -291,6 +291,9 @@ for f in fns:
     tgt = f(root)
     out = bisect(f, tgt, lo, up, precision=1e-6, max_iter=200)
     worst = max(worst, float((out - root).abs().max()))
+    root = T([-0.9, 0.9, 0.5])                                # targets at the ends of the range: F(lower) for one element, F(upper) for another
+    out = bisect(f, f(root), lo, up, precision=1e-6, max_iter=200)
+    worst = max(worst, float((out - root).abs().max()))
 # cannot converge (precision below one ulp): must stop with RuntimeError, not loop
 def _alarm(*a): raise TimeoutError("bisect did not stop")
 signal.signal(signal.SIGALRM, _alarm); signal.alarm(20)
@@ -309,7 +312,7 @@ result = {"got": worst, "ref": 0.0, "stopped": stopped}
 def _replay_bisect():
     r = real_exec(BISECT_REPLAY, {})
     ok = r.get('ok') and r['result']['got'] <= 1.5e-6 and r['result'].get('stopped') == 'RuntimeError'
-    return {'real': r, 'confirmed': not ok, 'note': 'replay = real bisect on 7 concrete monotone functions x 3 elements (per-element brackets)'}
+    return {'real': r, 'confirmed': not ok, 'note': 'replay = real bisect on 7 concrete monotone functions (4 increasing, 3 decreasing) x 3 elements (per-element brackets), targets inside and at both ends of the range'}
 
 
 def direction_ob():
@@ -390,6 +393,43 @@ def valueerror_ob():
     return Obligation('C19/bisect/raises[lower>=upper]', 'raises', 'pfhedge._utils.bisect.bisect', check, [PROP], clause='ValueError when lower < upper fails')
 
 
+IV_REPLAY = '''
+import pfhedge.nn as pnn
+bad = []
+x = T([-0.1, 0.0, 0.08]); t = T([0.3, 0.5, 1.0]); sig = T([0.15, 0.25, 0.4])
+cases = [("BSEuropeanOption", {}), ("BSEuropeanBinaryOption", {}), ("BSAmericanBinaryOption", {"max_log_moneyness": T([-0.05, 0.0, 0.08])}), ("BSLookbackOption", {"max_log_moneyness": T([0.02, 0.05, 0.09])})]
+for (name, extra) in cases:
+    for call in (True, False):
+        for strike in (1.0, 2.5):
+            try:
+                m = getattr(pnn, name)(call=call, strike=strike)
+                xs = [x] if name != "BSAmericanBinaryOption" else [T([-0.1, -0.05, -0.02])]      # a barrier product already hit has no volatility dependence
+                if name == "BSEuropeanBinaryOption": xs = [T([-0.2, -0.3, -0.6]), T([0.03, 0.06, 0.1])]   # out of the money with |x| >= t/2: increasing on the whole bracket; in the money: decreasing in volatility
+                for xx in xs:
+                    ex = dict(extra)
+                    if name == "BSAmericanBinaryOption": ex = {"max_log_moneyness": xx.clone()}
+                    price = m.price(log_moneyness=xx, time_to_maturity=t, volatility=sig, **ex)
+            except (ValueError, NotImplementedError, TypeError):
+                continue                        # this option type does not support the flag
+            for xx in xs:
+                ex = dict(extra)
+                if name == "BSAmericanBinaryOption": ex = {"max_log_moneyness": xx.clone()}
+                price = m.price(log_moneyness=xx, time_to_maturity=t, volatility=sig, **ex)
+                try:
+                    iv = m.implied_volatility(log_moneyness=xx, time_to_maturity=t, price=price, precision=1e-9, **ex)
+                except Exception as e:
+                    bad.append((name, call, strike, type(e).__name__ + ": " + str(e)[:80])); continue
+                if not torch.allclose(iv, sig, atol=1e-5): bad.append((name, call, strike, xx.tolist(), "implied " + str(iv.tolist()) + " generating " + str(sig.tolist())))
+result = {"got": [str(b) for b in bad][:8], "ref": []}
+'''
+
+
+def _replay_iv():
+    r = real_exec(IV_REPLAY, {}, timeout=300)
+    ok = r.get('ok') and r['result']['got'] == []
+    return {'real': r, 'confirmed': not ok, 'note': 'replay: implied_volatility(price(sigma)) == sigma on real torch for the four Black-Scholes modules, call/put where supported, strikes 1 and 2.5, binary option in and out of the money (price decreasing / increasing in volatility)'}
+
+
 def iv_wiring_obs():
     """find_implied_volatility and the four implied_volatility methods hand bisect the right function,
     target, bracket, precision and iteration budget."""
@@ -431,7 +471,7 @@ def iv_wiring_obs():
         for (label, gg) in goals:
             r = smt.prove([tm.gt(PREC, tm.ZERO)], gg, timeout_ms=10000)
             if r.status != 'unsat':
-                return Verdict('refuted' if r.status == 'sat' else 'unknown', r.backend, time.time() - t0, 'wiring `%s` fails' % label, witness={'vc': label}, replay={'confirmed': False})
+                return Verdict('refuted' if r.status == 'sat' else 'unknown', r.backend, time.time() - t0, 'wiring `%s` fails' % label, witness={'vc': label}, replay=_replay_iv())
         if seen['lower'].dtype is not torch.float64 or seen['max_iter'] != 100:
             return Verdict('refuted', 'structural', time.time() - t0, 'bracket dtype %s / max_iter %s' % (seen['lower'].dtype, seen['max_iter']), witness={}, replay={'confirmed': False})
         return Verdict('proved', 'z3', time.time() - t0, '', sample={'claim': 'find_implied_volatility wiring', 'goals': [g_[0] for g_ in goals]})
@@ -458,25 +498,43 @@ def iv_wiring_obs():
                     mdl = cls(strike=SReal(tm.var('K')))
                     kw = dict(log_moneyness=Tensor.input('x', (), torch.float64), time_to_maturity=Tensor.input('t', (), torch.float64),
                               price=Tensor.input('price', (), torch.float64), precision=SReal(PREC))
+                    ref_kw = dict(log_moneyness=kw['log_moneyness'], time_to_maturity=kw['time_to_maturity'])
                     if with_m:
-                        kw['max_log_moneyness'] = Tensor.input('m', (), torch.float64)
-                    seen['model'] = mdl
-                    return mdl.implied_volatility(**kw)
-                paths = explore(run, [tm.gt(PREC, tm.ZERO)], max_paths=4)
+                        kw['max_log_moneyness'] = ref_kw['max_log_moneyness'] = Tensor.input('m', (), torch.float64)
+                    seen.clear()
+                    mdl.implied_volatility(**kw)
+                    if 'kw' not in seen:
+                        return None
+                    # what find_implied_volatility does with its arguments (its own wiring obligation): fn(sigma) = pricer(volatility=sigma, **params)
+                    sig = Tensor.input('sig', (), torch.float64)
+                    params = {k_: v_ for k_, v_ in seen['kw'].items() if k_ not in ('precision', 'max_iter')}
+                    got = seen['pricer'](volatility=sig, **params)
+                    ref = mdl.price(volatility=sig, **ref_kw)
+                    return got, ref, seen['price'], seen['kw'].get('precision')
+                hy = [tm.gt(PREC, tm.ZERO), tm.gt(tm.var('K'), tm.ZERO), tm.gt(tm.var('t'), tm.ZERO), tm.gt(tm.var('sig'), tm.ZERO)] + ([tm.ge(tm.var('m'), tm.var('x')), tm.ge(tm.var('m'), tm.ZERO)] if with_m and clsname == 'BSLookbackOption' else ([tm.ge(tm.var('m'), tm.var('x'))] if with_m else []))
+                paths = explore(run, hy, max_paths=64)
             finally:
                 mod.find_implied_volatility = old
-            if len(paths) != 1 or paths[0].outcome() != 'returns' or 'kw' not in seen:
-                return Verdict('unknown', 'engine', time.time() - t0, 'paths %s' % [(p.outcome(), p.traceback[-300:]) for p in paths])
-            kw = seen['kw']
-            ok = (getattr(seen['pricer'], '__func__', None) is cls.price and seen['pricer'].__self__ is seen['model']
-                  and seen['price'].at(()) is tm.var('price') and kw['log_moneyness'].at(()) is tm.var('x')
-                  and kw['time_to_maturity'].at(()) is tm.var('t') and _lift(kw['precision']) is PREC
-                  and (not with_m or kw['max_log_moneyness'].at(()) is tm.var('m')) and set(kw) == ({'log_moneyness', 'time_to_maturity', 'precision'} | ({'max_log_moneyness'} if with_m else set())))
-            if ok:
-                return Verdict('proved', 'structural', time.time() - t0, '', sample={'claim': '%s.implied_volatility wiring' % clsname, 'kwargs': sorted(kw)})
-            return Verdict('refuted', 'structural', time.time() - t0, 'implied_volatility passes %s' % sorted(kw), witness={'kwargs': sorted(kw)}, replay={'confirmed': False})
+            rets = [p for p in paths if p.outcome() == 'returns']
+            if not rets or len(rets) != len(paths) or any(p.result is None for p in rets):
+                return Verdict('unknown', 'engine', time.time() - t0, 'paths %s' % [(p.outcome(), p.traceback[-300:]) for p in paths][:3])
+            nvc = 0
+            for p in rets:
+                got, ref, price_, prec_ = p.result
+                facts = p.facts(hy)
+                goals = [('the function handed to the search is this module\'s price at (log_moneyness%s, time_to_maturity, volatility = sigma)' % (', max_log_moneyness' if with_m else ''), 'eq', got.at(()), ref.at(())),
+                         ('target = price', 'eq', price_.at(()), tm.var('price')),
+                         ('precision passed on', 'eq', _lift(prec_) if prec_ is not None else tm.const(-1.0), PREC)]
+                for (label, _, a_, b_) in goals:
+                    r = fc.prove_eq(facts, a_, b_, timeout_ms=20000)
+                    nvc += 1
+                    if r.status != 'unsat':
+                        rp = _replay_iv()
+                        st = 'refuted' if (r.status == 'sat' or rp.get('confirmed')) else 'unknown'
+                        return Verdict(st, r.backend, time.time() - t0, 'implied_volatility wiring: `%s` fails: %s vs %s' % (label, tm.show(a_)[:200], tm.show(b_)[:200]), witness={'vc': label}, replay=rp)
+            return Verdict('proved', 'z3', time.time() - t0, '%d path(s), %d VCs' % (len(rets), nvc), sample={'claim': '%s.implied_volatility wiring (semantic: the price function handed over equals self.price)' % clsname})
         return Obligation('C19/%s.implied_volatility/wiring' % clsname, 'post', 'pfhedge.nn.modules.bs.%s.%s.implied_volatility' % (modname, clsname), check, [PROP],
-                          clause='%s.implied_volatility == find_implied_volatility(self.price, price, log_moneyness[, max_log_moneyness], time_to_maturity, precision)' % clsname)
+                          clause='%s.implied_volatility searches sigma -> self.price(log_moneyness%s, time_to_maturity, sigma) for the target `price` with the requested precision' % (clsname, ', max_log_moneyness' if with_m else ''))
     obs.append(method_check('european', 'BSEuropeanOption', False))
     obs.append(method_check('european_binary', 'BSEuropeanBinaryOption', False))
     obs.append(method_check('american_binary', 'BSAmericanBinaryOption', True))
